@@ -315,10 +315,35 @@ func (k *Keys) Feed(begin bool, keys ...rune) {
 	k.mutex.Lock()
 	defer k.mutex.Unlock()
 
+	// Keys already read (pasted or typed ahead) and not yet dispatched must be used
+	// after those of the macro, which are fed as if typed at this point: move them
+	// behind (the macro keys are popped as bytes, like the others).
+	if !begin && len(k.buf) > 0 {
+		for _, key := range k.buf {
+			keyBuf = append(keyBuf, rune(key))
+		}
+
+		k.buf = nil
+	}
+
 	if begin {
 		k.macroKeys = append(keyBuf, k.macroKeys...)
 	} else {
 		k.macroKeys = append(k.macroKeys, keyBuf...)
+	}
+}
+
+// addInput stores keys read on standard input outside of the main loop (while querying
+// the terminal) as user input. When a macro is being replayed, its remaining keys come
+// first: the new ones are queued behind them (macro keys are popped as bytes too).
+func (k *Keys) addInput(keys []byte) {
+	if len(k.macroKeys) == 0 {
+		k.buf = append(k.buf, keys...)
+		return
+	}
+
+	for _, key := range keys {
+		k.macroKeys = append(k.macroKeys, rune(key))
 	}
 }
 
